@@ -231,6 +231,22 @@ CHECKS.update({
     ),
 })
 
+CHECKS.update({
+    "C16": (
+        "model_checking",
+        "vloop-explorer",
+        "stateless explicit-state exploration of sets of <=3 concurrent BLE operations (read, descriptor read, write, descriptor write, start-notify, "
+        "device connect with timeout, pair, unpair, clear-cache, disconnect, get-services) on a real connected APIClient over 2 addresses x 2 handles "
+        "against one reference state machine per operation that consumes device messages and timer expiries in loop processing order; handler-table "
+        "and timer audit at every quiescent state",
+        "Every order (depth/deviation bounded; two frames per chunk and undrained deliveries included) of matching responses, same-address-other-handle and "
+        "other-address-same-handle responses, GATT errors, connection-state changes, notify data, timer expiries and connection loss is executed; outcome, "
+        "completion instant, frames written, callbacks and subscriptions left are compared with the reference.",
+        BASE,
+        "DESIGN.md §3 C16",
+    ),
+})
+
 NOT_APPLICABLE: dict[str, str] = {}
 
 
